@@ -116,6 +116,13 @@ def run(tier, seed):
     model_check(chk, 'offset', adv, expect_violation=False)
     model_check(chk, 'keypair', adv, expect_violation=True)     # gaps: unmapped variables are not counted -> label # position
     model_check(chk, 'keycat', adv, expect_violation=True)      # key collision ("1"+"11" = "11"+"1") and gaps
+    # (1b) thorough tier: the same statement for UNBOUNDED numbers of variables per asset, by an inductive invariant discharged with Apalache
+    if th:
+        import subprocess
+        pr = subprocess.run(['/verif/tools/apalache_index.sh'], capture_output=True, text=True)
+        chk.notes['apalache_inductive_label_rule'] = pr.stdout.strip().splitlines()[-1:] if pr.stdout.strip() else ['no output']
+        if pr.returncode != 0:
+            raise tlc.MachineryError('Apalache did not discharge the inductive obligations of EAOIndexInd: %s' % pr.stdout[-500:])
     # (2) traces of the real assembly
     items = []
     for s in range(seed, seed + (1 if not th else 4)):
